@@ -8,7 +8,7 @@ def sh(cmd, **kw):
     return subprocess.run(cmd, shell=True, capture_output=True, text=True, **kw)
 head = sh("git -C /repo rev-parse HEAD").stdout.strip()
 sh(f"git -C {W} checkout -q -- . && git -C {W} checkout -q --detach {head}")
-for n in (1, 2, 3):
+for n in sorted(int(x) for x in os.listdir(W + '/_out') if x.isdigit()):
     D = f"{W}/_out/{n}"
     if not os.path.exists(D + "/patch.diff"):
         print(f"{P}/{n}: missing"); continue
